@@ -18,7 +18,7 @@ from valida.rules import Rule
 from valida.schema import Schema
 
 from .. import gen as G
-from ..common import Report, stream, digest, order_to_decisions
+from ..common import Report, stream, digest, order_to_decisions, big
 from ..engine import Engine, Monitor, Scripted
 from ..ops import canon_fd, canon_rt, canon_vd
 from ..terms import World, snap, diff_path
@@ -372,7 +372,7 @@ def generate(seed):
     n_callers = r.randint(1, 3)
     programs = [[] for _ in range(n_callers)]
     order = []
-    for _ in range(r.randint(2, 12)):
+    for _ in range(r.randint(2, 12) + (r.randint(4, 12) if big(r) else 0)):
         c = r.randrange(n_callers)
         if programs[c] and r.random() < 0.35:
             op = programs[c][-1]
